@@ -67,7 +67,7 @@ Proof.
 Qed.
 
 Lemma st_insert_cong ms av1 av2 e v c : av_eq_at av1 av2 e -> st_insert ms av1 e v c = st_insert ms av2 e v c.
-Proof. intros [H1 [H2 _]]. unfold st_insert. rewrite H1, H2. reflexivity. Qed.
+Proof. intros [H1 [H2 _]]. unfold st_insert. cbv zeta. rewrite H1, H2. reflexivity. Qed.
 
 Lemma present_cong ms av1 av2 e : av_eq_at av1 av2 e -> present ms av1 e = present ms av2 e.
 Proof. intros [H1 _]. unfold present. rewrite H1. reflexivity. Qed.
@@ -82,7 +82,7 @@ Lemma st_remove_cong ms av1 av2 e c : av_eq_at av1 av2 e -> st_remove ms av1 e c
 Proof. intros [H1 _]. unfold st_remove. rewrite H1. reflexivity. Qed.
 
 Lemma st_entry_cong ms av1 av2 e o c : av_eq_at av1 av2 e -> st_entry ms av1 e o c = st_entry ms av2 e o c.
-Proof. intros [H1 [_ H3]]. unfold st_entry. rewrite H1, H3. reflexivity. Qed.
+Proof. intros [H1 [_ H3]]. unfold st_entry. cbv zeta. rewrite H1, H3. reflexivity. Qed.
 
 Lemma st_gmd_cong ms av1 av2 e c : av_eq_at av1 av2 e ->
   st_get_mut_or_default ms av1 e c = st_get_mut_or_default ms av2 e c.
@@ -103,20 +103,31 @@ Proof.
   rewrite (st_insert_cong _ av1 av2 e v _ H). destruct (st_insert _ av2 e v _) as [[ms1 r] c1]. apply IH. assumption.
 Qed.
 
+Lemma ms_sop_cong ms av1 av2 ent so c : (sop_handle so <> None -> av_eq_at av1 av2 ent) ->
+  ms_sop ms av1 ent so c = ms_sop ms av2 ent so c.
+Proof.
+  intros H. destruct so; cbn [ms_sop sop_handle] in *; try reflexivity;
+  assert (av_eq_at av1 av2 ent) as H' by (apply H; discriminate).
+  - rewrite (st_insert_cong ms av1 av2 ent v _ H'). reflexivity.
+  - rewrite (st_get_cong ms av1 av2 ent _ H'). reflexivity.
+  - rewrite (st_get_mut_cong ms av1 av2 ent _ _ _ H'). reflexivity.
+  - rewrite (st_remove_cong ms av1 av2 ent _ H'). reflexivity.
+  - unfold st_contains. rewrite (present_cong ms av1 av2 ent H'). reflexivity.
+  - rewrite (st_entry_cong ms av1 av2 ent _ _ H'). reflexivity.
+  - rewrite (st_gmd_cong ms av1 av2 ent _ H'). reflexivity.
+Qed.
+
 Lemma env_sop_cong env av1 av2 hs so :
   (forall k e, pv_get hs k = Some e -> av_eq_at av1 av2 e) ->
   env_sop env av1 hs so = env_sop env av2 hs so.
 Proof.
-  intros H. destruct so; cbn [env_sop]; try reflexivity;
-  (destruct (pv_get hs (N.of_nat h)) as [e|] eqn:Eh; [|reflexivity]);
-  (destruct (NM.find sid (se_stores env)) as [ms|]; [|reflexivity]); specialize (H _ _ Eh).
-  - rewrite (st_insert_cong ms av1 av2 e v _ H). reflexivity.
-  - rewrite (st_get_cong ms av1 av2 e _ H). reflexivity.
-  - rewrite (st_get_mut_cong ms av1 av2 e _ _ _ H). reflexivity.
-  - rewrite (st_remove_cong ms av1 av2 e _ H). reflexivity.
-  - unfold st_contains. rewrite (present_cong ms av1 av2 e H). reflexivity.
-  - rewrite (st_entry_cong ms av1 av2 e _ _ H). reflexivity.
-  - rewrite (st_gmd_cong ms av1 av2 e _ H). reflexivity.
+  intros H. unfold env_sop. destruct so; try reflexivity;
+  cbn [sop_handle sop_sid];
+  try (destruct (pv_get hs (N.of_nat h)) as [e|] eqn:Eh; [|reflexivity]);
+  (destruct (NM.find sid (se_stores env)) as [ms|]; [|reflexivity]);
+  match goal with |- context [ms_sop ms av1 ?e ?so ?c] =>
+    rewrite (ms_sop_cong ms av1 av2 e so c); [reflexivity|] end;
+  cbn [sop_handle]; intros Hh; try (exfalso; apply Hh; reflexivity); eapply H; eassumption.
 Qed.
 
 (* ------------------------------------------------------------------ *)
@@ -423,4 +434,19 @@ Qed.
 Theorem wrun_never_stuck os1 : w_alloc_stuck (fst (wrun true w_init os1)) = false.
 Proof.
   destruct (wrun_accepted os1 w_init s_init 0%nat RW_init) as [_ [sw' H]]. apply (RW_not_stuck _ _ H).
+Qed.
+
+(* the faithful run and the specification run driven by its outputs go in lock step *)
+Theorem wrun_sim os : forall w sw, RW w sw ->
+  let tr := combine os (snd (wrun true w os)) in
+  snd (srun sw tr) = snd (wrun true w os) /\ RW (fst (wrun true w os)) (fst (srun sw tr)).
+Proof.
+  induction os as [|o os IH]; intros w sw HRW; cbn zeta.
+  - cbn. auto.
+  - rewrite wrun_cons. cbn [fst snd combine srun].
+    pose proof (wstep_sim w sw o HRW) as X. destruct (wstep true w o) as [w1 out]. cbn [fst snd].
+    destruct (sstep sw o (choices_of out)) as [sw1 out']. destruct X as [-> HRW1].
+    destruct (IH w1 sw1 HRW1) as [I1 I2].
+    destruct (srun sw1 (combine os (snd (wrun true w1 os)))) as [sw2 outs]. cbn [fst snd] in *.
+    rewrite I1. auto.
 Qed.
